@@ -241,6 +241,30 @@ static int drv_parse(const Opts &o)
 			std::string hx = hexs(input); if (hx.size() > 1200 && out.compare(0, 4, "trap") && out != "timeout") hx = hx.substr(0, 1200) + "..";
 			emit(std::string("prop.parse.") + t.name + " " + hx + " => " + out); }
 	}
+	// five-octet subpacket lengths up to 2^32 - 1 (finding F44: headlen + len was computed in 32 bits), hashed and unhashed area
+	for (uint32_t len : { 0xFFFFFFFFu, 0xFFFFFFFEu, 0xFFFFFFFBu, 0xFFFFFFFAu, 0xFFFFFFF9u, 0x80000000u, 0x7FFFFFFFu, 0x00010000u, 0x0000FFFFu, 7u, 6u, 5u, 1u, 0u })
+	  for (int area = 0; area < 2; area++) for (int ty : { 2, 16, 20, 32, 100 }) {
+		Oct sp; sp.push_back(0xFF); sp.push_back((unsigned char)(len >> 24)); sp.push_back((unsigned char)(len >> 16)); sp.push_back((unsigned char)(len >> 8)); sp.push_back((unsigned char)len);
+		sp.push_back((unsigned char)ty); for (int i = 0; i < 4 + (int)g.below(6); i++) sp.push_back((unsigned char)g.below(256));
+		Oct none; std::string input = area ? armor_of_sig(g, none, sp) : armor_of_sig(g, sp, none);
+		for (auto &t : targets) { std::string tn = t.name; if (tn != "pgp.signatures_parse" && tn != "pgp.packet_decode" && tn != "pgp.signature_parse") continue;
+			std::string out = in_child(t.f, input);
+			emit(std::string("prop.parse.") + t.name + " " + hexs(input) + " => " + out); }
+	}
+	// Notation Data carries two lengths (name, value), each bounded by its own 2048-octet array: sweep each around the
+	// array size with the other one small (seeded change C12b: the value length was checked against the wrong field)
+	for (int which = 0; which < 2; which++) for (size_t len = 2046; len <= 2052; len++) for (size_t other : { (size_t)0, (size_t)1, (size_t)7 }) {
+		size_t nl = which ? other : len, vl = which ? len : other;
+		Oct body; body.push_back(0x80); body.push_back(0); body.push_back(0); body.push_back(0);
+		body.push_back((unsigned char)(nl >> 8)); body.push_back((unsigned char)nl); body.push_back((unsigned char)(vl >> 8)); body.push_back((unsigned char)vl);
+		for (size_t i = 0; i < nl + vl; i++) body.push_back((unsigned char)(0x41 + g.below(26)));
+		Oct sp; put_newlen(sp, body.size() + 1); sp.push_back(20); sp.insert(sp.end(), body.begin(), body.end());
+		Oct none; std::string input = ((len + other) % 2) ? armor_of_sig(g, sp, none) : armor_of_sig(g, none, sp);
+		for (auto &t : targets) { std::string tn = t.name; if (tn != "pgp.signatures_parse" && tn != "pgp.packet_decode") continue;
+			std::string out = in_child(t.f, input);
+			std::string hx = hexs(input); if (hx.size() > 1200 && out.compare(0, 4, "trap") && out != "timeout") hx = hx.substr(0, 1200) + "..";
+			emit(std::string("prop.parse.") + t.name + " " + hx + " => " + out); }
+	}
 	for (uint64_t c = 0; c < o.cases; c++) {
 		for (size_t ti = 0; ti < targets.size(); ti++) {
 			const T &t = targets[ti];
